@@ -35,6 +35,10 @@ type c20Case struct {
 	// second one goes to a server that advertises the OPPOSITE of ESC; the messages are sent over the
 	// first connection with SendWithSMTPClient. What counts is what the connection in use advertised.
 	TwoConns bool `json:"two_conns,omitempty"`
+	// AbandonRset (code 4yz/5yz, 0 = none): the first RSET that abandons a refused message is refused
+	// as well, so the library gives the connection up; every later message of the batch is then a failed
+	// message too (it carries an error and has its entry in the joined error).
+	AbandonRset int `json:"abandon_rset,omitempty"`
 }
 
 var escLead = regexp.MustCompile(`^([245]\.\d{1,3}\.\d{1,3})(?:\s|$)`)
@@ -62,6 +66,9 @@ func c20Run(c c20Case) []*core.Violation {
 	steps := map[string]refsmtp.Outcome{}
 	for _, f := range c.Faults {
 		steps[f.step()] = refsmtp.Outcome{Kind: "reply", Code: f.Code, Text: f.Text}
+	}
+	if c.AbandonRset != 0 {
+		steps["rsetabandon#1"] = refsmtp.Outcome{Kind: "reply", Code: c.AbandonRset, Text: "4.3.0 not now"}
 	}
 	srv := refsmtp.NewServer(refsmtp.Script{Caps: caps, Steps: steps, NoGreetProbe: true})
 	d := &refsmtp.Dialer{Srv: srv}
@@ -118,8 +125,20 @@ func c20Run(c c20Case) []*core.Violation {
 	var vs []*core.Violation
 	// the model: which fault hits each message first
 	failed := 0
+	connLost := false
 	for i := range msgs {
 		idx := i + 1
+		if connLost {
+			// the connection was given up after a refused abandoning RSET: this message cannot be sent
+			failed++
+			var se *mail.SendError
+			if !msgs[i].HasSendError() || !errors.As(msgs[i].SendError(), &se) {
+				vs = append(vs, core.V("missing-error", "message %d comes after the connection was given up (abandoning RSET refused with %d) but carries no *SendError (HasSendError=%v)\n%s", idx, c.AbandonRset, msgs[i].HasSendError(), tr))
+			} else if msgs[i].IsDelivered() {
+				vs = append(vs, core.V("missing-error", "message %d is marked delivered although the connection had been given up", idx))
+			}
+			continue
+		}
 		var mine []c20Fault
 		for _, f := range c.Faults {
 			if f.Msg == idx {
@@ -149,6 +168,9 @@ func c20Run(c c20Case) []*core.Violation {
 			expect, wantReason = &byPos["eod"][0], mail.ErrSMTPDataClose
 		case len(byPos["rset"]) > 0:
 			expect, wantReason = &byPos["rset"][0], mail.ErrSMTPReset
+		}
+		if expect != nil && c.AbandonRset != 0 && (wantReason == mail.ErrSMTPMailFrom || wantReason == mail.ErrSMTPRcptTo || wantReason == mail.ErrSMTPData) {
+			connLost = true // for the messages behind this one
 		}
 		m := msgs[i]
 		if expect == nil {
@@ -261,7 +283,7 @@ func c20Run(c c20Case) []*core.Violation {
 	}
 	if nt || rejectedPartial {
 		sort.Strings(keys)
-		rec.NonTrivial(core.Join(fmt.Sprint(c.NRcpt), c.ESC, strings.Join(keys, ","), c.TwoConns))
+		rec.NonTrivial(core.Join(fmt.Sprint(c.NRcpt), c.ESC, strings.Join(keys, ","), c.TwoConns, c.AbandonRset))
 		rec.Sample(fmt.Sprintf("%d/%v", len(c.Faults), c.ESC), map[string]interface{}{"nrcpt": c.NRcpt, "esc_advertised": c.ESC, "faults": c.Faults})
 	}
 	return vs
@@ -288,6 +310,9 @@ func c20GenFault(t *rapid.T, msg int, nrcpt int, pos string) c20Fault {
 
 func c20Gen(t *rapid.T) c20Case {
 	c := c20Case{ESC: rapid.Bool().Draw(t, "esc"), TwoConns: rapid.IntRange(0, 3).Draw(t, "twoconns") == 0}
+	if rapid.IntRange(0, 4).Draw(t, "abandonrset") == 0 {
+		c.AbandonRset = rapid.SampledFrom([]int{451, 421, 503, 554}).Draw(t, "abandonrsetcode")
+	}
 	n := rapid.IntRange(1, 4).Draw(t, "nmsgs")
 	for i := 0; i < n; i++ {
 		c.NRcpt = append(c.NRcpt, rapid.IntRange(1, 4).Draw(t, "nrcpt"))
@@ -310,7 +335,7 @@ func c20Gen(t *rapid.T) c20Case {
 func c20Describe() {
 	rec := core.Rec("C20")
 	rec.Rule = "batches of 1..4 messages x 1..4 recipients sent with Client.Send to the reference server, which answers 1..4 chosen commands (MAIL, individual RCPTs, DATA, end-of-data, the RSET after a delivered message) with a reply code from 400..599 and a text from {plain, leading well-formed enhanced code, enhanced-looking material later in the text (IPv4 addresses, version numbers, quoted replies of an upstream server such as '550 5.1.1 User unknown'), malformed enhanced codes, multi-line}, with ENHANCEDSTATUSCODES advertised or not. " +
-		"One case in four holds two connections of the same Client at once (DialToSMTPClientWithContext twice, the second to a server advertising the opposite of ENHANCEDSTATUSCODES) and sends over the first with SendWithSMTPClient. TestC20Enum (thorough) enumerates all 200 codes x 5 positions x ESC on/off x 5 text kinds for a single message. " +
+		"One case in five also refuses the RSET that abandons the first refused message (the library gives the connection up): every later message of the batch then carries an error and has its entry in the joined error. One case in four holds two connections of the same Client at once (DialToSMTPClientWithContext twice, the second to a server advertising the opposite of ENHANCEDSTATUSCODES) and sends over the first with SendWithSMTPClient. TestC20Enum (thorough) enumerates all 200 codes x 5 positions x ESC on/off x 5 text kinds for a single message. " +
 		"Oracle, computed from what the server sent: Reason names the step, ErrorCode() == code, IsTemp() <=> 4yz, EnhancedStatusCode() == leading enhanced code iff advertised and the reply began with one, the recipients listed == exactly the rejected ones with code/temp/enhanced code of the last rejection, unaffected messages carry no error, Send's joined error has one entry per failed message and Msg.SendError() is that entry. " +
 		"Non-trivial: a code other than 450/550 or a partial recipient rejection. Distinct by (batch, ESC, fault list)."
 	rec.Assumptions = []string{"only 'reply' outcomes are injected (no disconnects), so every message reaches its MAIL command", "NOOP replies are not faulted (not in the property's quantifier)"}
